@@ -158,7 +158,7 @@ Definition ex_O : name := [111; 46; 116]%N.   (* "o.t" *)
 Definition ex_P : name := [112; 46; 116]%N.   (* "p.t" *)
 Definition ex_roots : tpool := [TRoot 1 0 1000].
 Definition ex_cfg (inv : name) (sv st ech : bool) : config tpool := mkConfig ex_S inv sv st ex_roots 500 ech None true.
-Definition ex_leaf (names : list name) : tcert := TCert names 400 600 1.
+Definition ex_leaf (names : list name) : tcert := TCert names 400 600 1 0.
 
 (* the witness of F-14: ECH rejected, client-facing server presents a certificate for the public name.
    The unfixed selection verifies against the secret name (refusing it); the fixed one against the public name. *)
@@ -179,8 +179,8 @@ Example C14_ex_decision :
   t_result cfg (t_conn cfg ex_P false) [ex_leaf [ex_O]] = HsOk /\
   t_result cfg (t_conn cfg ex_P false) [ex_leaf [ex_S]] = HsCertError /\
   t_result (ex_cfg [42%N] false false false) (t_conn cfg ex_P false) [ex_leaf [ex_P]] = HsOk /\
-  t_result (ex_cfg [] false false false) (t_conn cfg ex_P false) [TCert [ex_S] 400 600 2] = HsCertError /\
-  t_result (ex_cfg [] true false false) (t_conn cfg ex_P false) [TCert [ex_P] 400 600 2] = HsOk.
+  t_result (ex_cfg [] false false false) (t_conn cfg ex_P false) [TCert [ex_S] 400 600 2 0] = HsCertError /\
+  t_result (ex_cfg [] true false false) (t_conn cfg ex_P false) [TCert [ex_P] 400 600 2 0] = HsOk.
 Proof. vm_compute. repeat split. Qed.
 
 (* the structural hypothesis of C14_success_name_matches holds for the concrete X.509 *)
@@ -191,9 +191,22 @@ Proof. reflexivity. Qed.
 (* the time-independence premise of C14_time_only is satisfiable (a leaf and root valid at every time the
    options can carry), and InsecureSkipTimeVerify does matter on an expired leaf *)
 Example C14_ex_time :
-  t_result (ex_cfg [] false false false) (t_conn (ex_cfg [] false false false) ex_P false) [TCert [ex_S] 100 200 1] = HsCertError /\
-  t_result (ex_cfg [] false true false) (t_conn (ex_cfg [] false true false) ex_P false) [TCert [ex_S] 100 200 1] = HsOk /\
-  t_result (ex_cfg [] false true false) (t_conn (ex_cfg [] false true false) ex_P false) [TCert [ex_O] 100 200 1] = HsCertError.
+  t_result (ex_cfg [] false false false) (t_conn (ex_cfg [] false false false) ex_P false) [TCert [ex_S] 100 200 1 0] = HsCertError /\
+  t_result (ex_cfg [] false true false) (t_conn (ex_cfg [] false true false) ex_P false) [TCert [ex_S] 100 200 1 0] = HsOk /\
+  t_result (ex_cfg [] false true false) (t_conn (ex_cfg [] false true false) ex_P false) [TCert [ex_O] 100 200 1 0] = HsCertError.
+Proof. vm_compute. repeat split. Qed.
+
+(* chains with an intermediate: trusted only through a root, and every certificate of the path must be valid at
+   the verification time — with InsecureSkipTimeVerify that time is the leaf's NotAfter, so an intermediate that
+   expires before the leaf is refused, and an untrusted root is refused whatever the flag says *)
+Example C14_ex_intermediate :
+  let leaf := TCert [ex_S] 400 600 7 0 in
+  t_result (ex_cfg [] false false false) (t_conn (ex_cfg [] false false false) ex_P false) [leaf; TCert [] 300 700 1 7] = HsOk /\
+  t_result (ex_cfg [] false true false) (t_conn (ex_cfg [] false true false) ex_P false) [leaf; TCert [] 300 700 1 7] = HsOk /\
+  t_result (ex_cfg [] false false false) (t_conn (ex_cfg [] false false false) ex_P false) [leaf; TCert [] 300 550 1 7] = HsOk /\
+  t_result (ex_cfg [] false true false) (t_conn (ex_cfg [] false true false) ex_P false) [leaf; TCert [] 300 550 1 7] = HsCertError /\
+  t_result (ex_cfg [] false true false) (t_conn (ex_cfg [] false true false) ex_P false) [leaf; TCert [] 300 550 2 7] = HsCertError /\
+  t_result (ex_cfg [] false false false) (t_conn (ex_cfg [] false false false) ex_P false) [leaf] = HsCertError.
 Proof. vm_compute. repeat split. Qed.
 
 (* resumption: offered for a matching unexpired verified leaf; not for a wrong name, an expired leaf, or a
@@ -202,7 +215,7 @@ Example C14_ex_resumed :
   t_load_session (ex_cfg [] false false false) (mkSession (ex_leaf [ex_S]) true) = true /\
   t_load_session (ex_cfg ex_O false false false) (mkSession (ex_leaf [ex_S]) true) = false /\
   t_load_session (ex_cfg [42%N] false false false) (mkSession (ex_leaf [ex_P]) true) = true /\
-  t_load_session (ex_cfg [] false false false) (mkSession (TCert [ex_S] 100 200 1) true) = false /\
-  t_load_session (ex_cfg [] false true false) (mkSession (TCert [ex_S] 100 200 1) true) = true /\
+  t_load_session (ex_cfg [] false false false) (mkSession (TCert [ex_S] 100 200 1 0) true) = false /\
+  t_load_session (ex_cfg [] false true false) (mkSession (TCert [ex_S] 100 200 1 0) true) = true /\
   t_load_session (ex_cfg [] false false false) (mkSession (ex_leaf [ex_S]) false) = false.
 Proof. vm_compute. repeat split. Qed.
